@@ -3,7 +3,8 @@ MANIFEST = {
     "engine": "symrun",
     "category": "proof",
     "text": "Postconditions on the real normalizer classes (LogNormal, BoxCox, BoxCoxShift, YeoJohnson, Modulus, Manly) for ALL data values and ALL parameter values (symbolic reals) in each documented case (lambda negative / positive / in the code's tolerance window around the special values 0 and 2): _normalize, _denormalize equal the formulas of the class docstrings; _derivative equals the calculus derivative (hand formula and mechanical differentiation of the extracted term of the real _normalize) and is positive; x1 < x2 implies normalize(x1) < normalize(x2); denormalize(normalize(x)) = x on the input range and the converse on the output range; normalize maps the input range into the declared denormalize_range (fails for Manly, lambda < 0: finding F8); the public methods return NaN exactly for out-of-range entries; loglikelihood equals the profile normal log-likelihood of the transformed data and fit hands exactly its negative kernel to the optimiser and stores/returns the optimiser's result; apply_mean_norm_trend = trend + denormalize(mean + field), remove_trend_norm_mean inverts it, Field.post_field uses the field's own mean/normalizer/trend (scalar/vector fields, constant/callable mean and trend, both mesh types; fails for a structured n x n grid with n = 2 through the shape check of apply_mean_norm_trend); kriging conditions enter the system as normalize(value - trend) - mean and Simple.get_mean returns denormalize(mean). Added after the seeding rounds: fit_normalizer fits the DETRENDED field; the log-likelihood of data with NaN entries is that of the valid values (sample size = number of valid values)."
-            " Round 7: a normalizer class handed over twice gives two independent default instances.",
+            " Round 7: a normalizer class handed over twice gives two independent default instances."
+            " The valid range of denormalize is the image of the documented transform also for YeoJohnson and Modulus (F49 repaired; the contract no longer assumes invertibility there).",
     "level_note": "values and parameters are unbounded (symbolic); obligations whose code is shape dependent (log-likelihood n<=3 data points, _check_input masks with 2 entries, pipeline on 1-6 cells in dim 2, fit objective with 2 data points, kriging conditions with 2 points) are reported BOUNDED, NaN inputs are covered by native probes (BOUNDED) because NaN is not a real; pointwise obligations on 1-element arrays count as proved (numpy elementwise semantics, T2). floats as reals (T1): the documented special cases lambda = 0 / 2 are identified with the code's np.isclose windows for transform/inverse/ranges, while derivative and log-likelihood are stated at lambda = 0, 2 exactly and outside the windows (inside the window, 0 < |lambda| <= 1e-8, the code's derivative differs from the derivative of the limit formula by the factor x^lambda: residue); the log-likelihood is stated where the derivative is >= 1e-16 (the code's guard log(max(1e-16, y'))). pow/exp/log are uninterpreted with instantiated textbook facts (T4: (x^a)^(1/a) = x, x^a vs 1, derivative table). NOT decided: that scipy's optimiser in Normalizer.fit finds the maximiser of the log-likelihood (T5 residue); that a positive derivative on an interval implies strict monotonicity is used only as a cross-check (monotonicity is also proved directly on two points). The converse round trip for YeoJohnson and Modulus is stated on the image of the transform, which is smaller than their declared denormalize_range (all reals) for lambda < 0 or lambda > 2.",
     "technique": "contract-based deductive verification: symbolic execution of the real Python methods against sidecar postconditions from the docstrings, VCs discharged by z3/cvc5 with instantiated axiom hints",
 }
